@@ -11,7 +11,7 @@ from vt.oracles import prem
 
 PROPERTY = "C13"
 TITLE = "Generators"
-TECHNIQUE = ('runtime monitoring: recorded generator draws decided by statistical oracles (KS, chi-square, binomial z at p < 1e-6), an independent chord-through-volume geometry oracle and independently recomputed weights (typed PREM tables)')
+TECHNIQUE = ('runtime monitoring: recorded generator draws decided by statistical oracles (KS, chi-square, binomial z at p < 1e-6), an independent chord-through-volume geometry oracle independently recomputed weights (typed PREM tables), and a source with a known sequence of energies matched against every recorded throw')
 ANCHORS = ["pyrex.generation:CylindricalGenerator.get_vertex", "pyrex.generation:RectangularGenerator.get_vertex", "pyrex.generation:Generator.get_direction",
            "pyrex.generation:Generator.get_particle_type", "pyrex.generation:CylindricalGenerator.get_exit_points",
            "pyrex.generation:RectangularGenerator.get_exit_points", "pyrex.generation:Generator.get_weights", "pyrex.generation:Generator.create_event",
